@@ -275,7 +275,7 @@ impl VectorizedHashTable {
 
         for batch in batches {
             let key_arrays: Result<Vec<ArrayRef>> =
-                key_exprs.iter().map(|e| evaluate_expr(batch, e)).collect();
+                key_exprs.iter().map(|e| evaluate_key(batch, e)).collect();
             let key_arrays = key_arrays?;
             // Verify we can vectorize these types
             if !key_arrays.is_empty() && !vectorized_hash::can_vectorize_arrays(&key_arrays) {
@@ -1523,6 +1523,20 @@ struct HashEntry {
 /// Threshold for parallel build (use parallel for larger datasets)
 const PARALLEL_BUILD_THRESHOLD: usize = 10_000;
 
+/// Evaluate a join key expression to plain values. A dictionary-encoded key (the string
+/// columns a small-build join gathers come out as `Dictionary(Int32, Utf8)`) is decoded first:
+/// the hash and compare kernels know plain arrays only, and left it unhashed, so a probe on a
+/// gathered string column of an earlier join matched nothing.
+fn evaluate_key(batch: &RecordBatch, expr: &Expr) -> Result<ArrayRef> {
+    let arr = evaluate_expr(batch, expr)?;
+    match arr.data_type() {
+        arrow::datatypes::DataType::Dictionary(_, value_type) => {
+            Ok(compute::cast(&arr, value_type.as_ref())?)
+        }
+        _ => Ok(arr),
+    }
+}
+
 fn build_hash_table(
     batches: &[RecordBatch],
     key_exprs: &[Expr],
@@ -1548,7 +1562,7 @@ fn build_hash_table_sequential(
 
     for (batch_idx, batch) in batches.iter().enumerate() {
         let key_arrays: Result<Vec<ArrayRef>> =
-            key_exprs.iter().map(|e| evaluate_expr(batch, e)).collect();
+            key_exprs.iter().map(|e| evaluate_key(batch, e)).collect();
         let key_arrays = key_arrays?;
 
         for row_idx in 0..batch.num_rows() {
@@ -1582,7 +1596,7 @@ fn build_hash_table_parallel(
             let mut partial: HashMap<JoinKey, Vec<HashEntry>> = HashMap::new();
 
             let key_arrays: Result<Vec<ArrayRef>> =
-                key_exprs.iter().map(|e| evaluate_expr(batch, e)).collect();
+                key_exprs.iter().map(|e| evaluate_key(batch, e)).collect();
             let key_arrays = key_arrays?;
 
             for row_idx in 0..batch.num_rows() {
@@ -1627,7 +1641,7 @@ fn build_i64_hash_table(
     }
 
     // Check if the key evaluates to an Int64-compatible type
-    let first_key = evaluate_expr(&batches[0], key_expr).ok()?;
+    let first_key = evaluate_key(&batches[0], key_expr).ok()?;
     let is_int = first_key.as_any().downcast_ref::<Int64Array>().is_some()
         || first_key
             .as_any()
@@ -1643,7 +1657,7 @@ fn build_i64_hash_table(
 
     let mut table: HashMap<i64, Vec<HashEntry>> = HashMap::new();
     for (batch_idx, batch) in batches.iter().enumerate() {
-        let key_arr = evaluate_expr(batch, key_expr).ok()?;
+        let key_arr = evaluate_key(batch, key_expr).ok()?;
         if let Some(int_arr) = key_arr.as_any().downcast_ref::<Int64Array>() {
             for row_idx in 0..batch.num_rows() {
                 if int_arr.is_null(row_idx) {
@@ -2116,7 +2130,7 @@ fn probe_inner_i64_parallel(
 
     for probe_batch in probe_batches {
         // Evaluate key expression once for the whole batch
-        let key_arr = evaluate_expr(probe_batch, probe_key_expr)?;
+        let key_arr = evaluate_key(probe_batch, probe_key_expr)?;
         let n_rows = probe_batch.num_rows();
 
         // Get direct access to the key array values (no per-row allocation)
@@ -2270,7 +2284,7 @@ fn probe_semi_anti_parallel(
         .par_iter()
         .map(|probe_batch| {
             let probe_key_arr = if probe_key_exprs.len() == 1 {
-                Some(evaluate_expr(probe_batch, &probe_key_exprs[0])?)
+                Some(evaluate_key(probe_batch, &probe_key_exprs[0])?)
             } else {
                 None
             };
@@ -2290,7 +2304,7 @@ fn probe_semi_anti_parallel(
                 if i64_values.is_none() || (i64_ht_ref.is_none() && use_vht.is_none()) {
                     let arrays: Result<Vec<ArrayRef>> = probe_key_exprs
                         .iter()
-                        .map(|e| evaluate_expr(probe_batch, e))
+                        .map(|e| evaluate_key(probe_batch, e))
                         .collect();
                     Some(arrays?)
                 } else {
@@ -2620,7 +2634,7 @@ fn probe_vectorized(
                     let t = clk(prof);
                     let probe_key_arrays: Result<Vec<ArrayRef>> = probe_key_exprs
                         .iter()
-                        .map(|e| evaluate_expr(probe_batch, e))
+                        .map(|e| evaluate_key(probe_batch, e))
                         .collect();
                     let probe_key_arrays = probe_key_arrays?;
                     lap(t, &t_key);
@@ -2751,7 +2765,7 @@ fn probe_vectorized(
                 .map(|probe_batch| {
                     let probe_key_arrays: Result<Vec<ArrayRef>> = probe_key_exprs
                         .iter()
-                        .map(|e| evaluate_expr(probe_batch, e))
+                        .map(|e| evaluate_key(probe_batch, e))
                         .collect();
                     let probe_key_arrays = probe_key_arrays?;
                     let n_rows = probe_batch.num_rows();
@@ -2832,7 +2846,7 @@ fn probe_vectorized(
     for probe_batch in probe_batches {
         let probe_key_arrays: Result<Vec<ArrayRef>> = probe_key_exprs
             .iter()
-            .map(|e| evaluate_expr(probe_batch, e))
+            .map(|e| evaluate_key(probe_batch, e))
             .collect();
         let probe_key_arrays = probe_key_arrays?;
 
@@ -3310,7 +3324,7 @@ fn probe_hash_table(
     for probe_batch in probe_batches {
         let probe_key_arrays: Result<Vec<ArrayRef>> = probe_key_exprs
             .iter()
-            .map(|e| evaluate_expr(probe_batch, e))
+            .map(|e| evaluate_key(probe_batch, e))
             .collect();
         let probe_key_arrays = probe_key_arrays?;
 
